@@ -20,7 +20,7 @@ LEVEL = "model_checking"
 RULE = ("E2: Context.shutdown() injected after every step of the default run (K=1) and of every one-deviation run (K=2; drop, "
         "duplicate, reorder) of sixteen busy scenarios (one next to a second bystander that is a server with a running handler and an observer; one with CON notifications acknowledged late; among them an observation whose iterating consumer task has been cancelled, an observation whose first notification is block-wise and observations whose "
         "consumer subscribes only after the shutdown), plain and with the loop stalling for 0.15 s / 3.5 s after the 1st..6th loop iteration "
-        "of the shutdown (timers due in between run late), plain also with a request submitted by another task after the 1st..4th loop iteration of the shutdown with the application cancelling what it waits for in the same step, and with a datagram of the peer (new request / response to nothing) becoming readable after the 1st..3rd loop iteration, followed by a full drain; distinct = distinct schedule")
+        "of the shutdown (timers due in between run late), plain also with a request submitted by another task after the 1st..4th loop iteration of the shutdown with the application cancelling what it waits for in the same step, with a datagram of the peer (new request / response to nothing) becoming readable after the 1st..3rd loop iteration, with one more request submitted in the very step that starts the shutdown; a handler whose clean-up after the cancellation outlasts the time-out; followed by a full drain; distinct = distinct schedule")
 ASSUMPTIONS = [
     "SHUTDOWN_TIMEOUT = 3 s (numbers/constants.py documentation); EXCHANGE_LIFETIME = 247 s",
     "the bystander context lives in the same loop and talks to its own peer",
@@ -32,7 +32,8 @@ OCTX = ("2001:db8::b", 40000)    # bystander context
 OSRV = ("2001:db8::2", 5683)     # bystander's server
 
 SCENARIOS = ("await-ack", "await-separate", "bw-up", "bw-down", "obs-client", "obs-server", "backlog", "slow-handler", "slow-twice", "dedup-alive",
-             "obs-client-bw", "obs-client-late", "obs-client-late-plain", "obs-client-iter-gone", "obs-server-lateack", "bystander-server", "victim-serves-bystander")
+             "obs-client-bw", "obs-client-late", "obs-client-late-plain", "obs-client-iter-gone", "obs-server-lateack", "bystander-server", "victim-serves-bystander",
+             "slow-handler-cleanup")
 BSRV = ("2001:db8::b5", 5683)     # a second bystander: a *server* context with a handler running and an observer registered
 BPEER = ("2001:db8::b6", 40000)
 STALLS = [(j, dt) for j in (1, 2, 3, 4, 6) for dt in (0.15, 3.5)]   # the loop stalls for dt seconds after the j-th iteration of the shutdown
@@ -114,8 +115,9 @@ class ShutScenario(NetScenario):
         st.sent_at_return = None
         # --- the victim
         site = None
-        if kind in ("obs-server", "slow-handler", "slow-twice", "dedup-alive", "obs-server-lateack", "victim-serves-bystander"):
+        if kind in ("obs-server", "slow-handler", "slow-twice", "dedup-alive", "obs-server-lateack", "victim-serves-bystander", "slow-handler-cleanup"):
             site = resource.Site()
+            cleanup = 7.0 if kind == "slow-handler-cleanup" else 0      # a handler whose own clean-up after the cancellation takes its time
 
             class Slow(resource.Resource):
                 async def render_get(self, request):
@@ -124,6 +126,8 @@ class ShutScenario(NetScenario):
                         await asyncio.sleep(0.5)
                     except asyncio.CancelledError:
                         st.handler_log.append("cancelled")
+                        if cleanup:
+                            await asyncio.sleep(cleanup)      # the shutdown does not wait for this beyond its time-out
                         raise
                     st.handler_log.append("done")
                     return Message(payload=b"slow")
@@ -237,7 +241,7 @@ class ShutScenario(NetScenario):
                 st.obsreq = r
             elif kind in ("obs-server", "obs-server-lateack"):
                 st.world.emit(PEER, V, rc.encode((rc.CON, 1, 0x5001, b"\x0b", [(6, b""), (11, b"obs")], b"")))
-            elif kind in ("slow-handler", "slow-twice"):
+            elif kind in ("slow-handler", "slow-twice", "slow-handler-cleanup"):
                 st.world.emit(PEER, V, rc.encode((rc.CON, 1, 0x5001, b"\x0b", [(11, b"slow")], b"")))
             elif kind == "dedup-alive":
                 st.world.emit(PEER, V, rc.encode((rc.CON, 1, 0x5001, b"\x0b", [(11, b"fast")], b"")))
@@ -283,7 +287,7 @@ class ShutScenario(NetScenario):
         if st.shut_at is None and st.script_pos > 0:
             return [("shutdown", 1)] + ([("shutdown/stall%d/%s" % (j, dt), 1) for j, dt in STALLS] if self.stalls else
                                         [("shutdown/req%d" % j, 1) for j in (1, 2, 3, 4)] + [("shutdown/withdrawn", 1)] +
-                                        [("shutdown/dgram%d/%s" % (j, k), 1) for j in (1, 2, 3) for k in ("creq", "cresp")])
+                                        [("shutdown/dgram%d/%s" % (j, k), 1) for j in (1, 2, 3) for k in ("creq", "cresp")] + [("shutdown/same-step", 1)])
         return []
 
     def apply_fault(self, st, label):
@@ -304,7 +308,17 @@ class ShutScenario(NetScenario):
                 st.retries.append(st.v.ctx.request(m, handle_blockwise=False).response)
         for n, f in st.pending_at_shut:
             f.add_done_callback(retry)
-        st.shut_task = w.loop.create_task(st.v.ctx.shutdown())
+        if label.endswith("/same-step"):
+            # the application submits one more request and shuts down in the very same step of its task (`ctx.request(m); await
+            # ctx.shutdown()`): the request has not even been handed to a transport yet - it ends with a library error like the others
+            async def app():
+                m = Message(code=GET, uri_path=["last-minute"])
+                m.remote = st.v.remote(PEER)
+                st.retries.append(st.v.ctx.request(m, handle_blockwise=False).response)
+                await st.v.ctx.shutdown()
+            st.shut_task = w.loop.create_task(app())
+        else:
+            st.shut_task = w.loop.create_task(st.v.ctx.shutdown())
         if label.endswith("/withdrawn"):
             # the application gives up on everything it is waiting for and shuts down in the same breath (`f.cancel(); await
             # ctx.shutdown()` in one task step: the shutdown starts before the futures' done-callbacks have run).  What it has
